@@ -120,6 +120,47 @@ def _check_typenames(model, data, problems, path="$"):
             _check_typenames(m, d, problems, f"{path}[{i}]")
 
 
+def _enum_classes(ann):
+    import enum
+    import typing
+    out = []
+    if isinstance(ann, type) and issubclass(ann, enum.Enum):
+        out.append(ann)
+    for a in typing.get_args(ann):
+        out += _enum_classes(a)
+    return out
+
+
+def _check_enums(model, problems, path="$"):
+    """statement: `enum values as the member of the same name`"""
+    import enum
+    if isinstance(model, list):
+        for i, m in enumerate(model):
+            _check_enums(m, problems, f"{path}[{i}]")
+        return
+    if not isinstance(model, pydantic.BaseModel):
+        return
+    for name, fld in type(model).model_fields.items():
+        v = getattr(model, name)
+        enums = _enum_classes(fld.annotation)
+        leaves = []
+
+        def flat(x):
+            if isinstance(x, list):
+                for y in x:
+                    flat(y)
+            elif x is not None:
+                leaves.append(x)
+        flat(v)
+        for leaf in leaves:
+            if isinstance(leaf, pydantic.BaseModel):
+                _check_enums(leaf, problems, f"{path}.{fld.alias or name}")
+            elif enums and not isinstance(leaf, enum.Enum):
+                problems.append(f"{path}.{fld.alias or name}: enum value {leaf!r} exposed as {type(leaf).__name__}, not as a member of {enums[0].__name__}")
+            elif isinstance(leaf, enum.Enum) and leaf.value != leaf.name.rstrip("_") and leaf.value != leaf.name:
+                problems.append(f"{path}.{fld.alias or name}: member {leaf.name} does not carry the value of the same name ({leaf.value!r})")
+
+
 def _corruptions(data, path=()):
     """single-point corruptions with the kind of position they hit"""
     out = []
@@ -216,6 +257,12 @@ def check_operation(name, text, snake=True, with_corruptions=True):
             if problems:
                 rep["failed"].append("instance-of-the-class-for-its-runtime-type")
                 rep["outcome"]["typename"] = problems[:3]
+                break
+            problems = []
+            _check_enums(m, problems)
+            if problems:
+                rep["failed"].append("enum-values-exposed-as-the-member-of-the-same-name")
+                rep["outcome"]["enums"] = problems[:3]
                 break
             if not with_corruptions:
                 continue
